@@ -23,8 +23,14 @@ type markerSession struct {
 	delay int // Gosched rounds before returning (varies completion order)
 }
 
+const slowFid = 1 << 30 // calls on fids ≥ slowFid are answered late (their callers give up first)
+
 func (m *markerSession) tick(fid p9p.Fid) {
 	atomic.AddInt64(&m.calls, 1)
+	if fid >= slowFid {
+		time.Sleep(3 * time.Millisecond)
+		return
+	}
 	for i := 0; i < int(fid)%(m.delay+1); i++ {
 		time.Sleep(time.Microsecond)
 	}
@@ -102,6 +108,7 @@ type ConcCase struct {
 	Each       int
 	Delay      int
 	Probe      bool // the known-finding probe: many callers over a rendezvous connection
+	Quitter    bool // an extra caller whose calls are abandoned (context timeout) before the session answers
 }
 
 func GenConc(t *rapid.T) ConcCase {
@@ -111,6 +118,13 @@ func GenConc(t *rapid.T) ConcCase {
 		c.Callers = rapid.IntRange(2, 4).Draw(t, "callers")
 	} else {
 		c.Callers = rapid.IntRange(2, 32).Draw(t, "callers")
+	}
+	c.Quitter = rapid.Bool().Draw(t, "quitter")
+	if c.Rendezvous {
+		// every abandoned call leaves a request in flight at the server, so the abandoning
+		// caller alone crosses the D14 threshold (>= 5 requests in flight over a zero-buffer
+		// connection): only on buffered connections
+		c.Quitter = false
 	}
 	return c
 }
@@ -256,6 +270,28 @@ func RunConc(c ConcCase) harn.Result {
 			}
 		}(k)
 	}
+	// one more caller keeps abandoning calls (its context ends before the slow session
+	// answers); the late replies must not disturb anybody else
+	if c.Quitter {
+		wg.Add(1)
+		go func() {
+			defer wg.Done()
+			for i := 0; i < 1+c.Each/2; i++ {
+				// cancelled, not deadline-bound: a context *deadline* is also applied to the
+				// connection write (see the C12 known finding D17), which is not what is
+				// being exercised here
+				qctx, cancel := context.WithCancel(ctx)
+				tm := time.AfterFunc(300*time.Microsecond, cancel)
+				err := st.Client.Clunk(qctx, p9p.Fid(slowFid+i))
+				tm.Stop()
+				cancel()
+				if err == nil {
+					// answered in time after all: fine
+					continue
+				}
+			}
+		}()
+	}
 	done := make(chan struct{})
 	go func() { wg.Wait(); close(done) }()
 	// a stall is "no call anywhere completes for stallBound", not "the whole run takes
@@ -299,6 +335,9 @@ wait:
 	defer mu.Unlock()
 	if len(wrong) > 0 {
 		return harn.Fail("%d concurrent callers (rendezvous=%v): %s", c.Callers, c.Rendezvous, wrong[0])
+	}
+	if c.Quitter {
+		res.Classes = append(res.Classes, "conc_with_abandoned_calls")
 	}
 	if c.Rendezvous {
 		res.Classes = append(res.Classes, "conc_rendezvous")
